@@ -133,7 +133,7 @@ func (c17Sim) Gen(prop, tier string, r *rand.Rand) interface{} {
 }
 
 func validC17(c *C17Case) bool {
-	if !c.Layout.Valid() || c.Clock0 < 946684800 || c.Clock0 > math.MaxInt32-400*86400-10 || len(c.Files) > 30 || len(c.Cmds) > 10 || len(c.Queries) > 10 {
+	if !c.Layout.Valid() || c.Clock0 < 946684800 || c.Clock0 > math.MaxUint32-3*400*86400 || len(c.Files) > 30 || len(c.Cmds) > 10 || len(c.Queries) > 10 {
 		return false
 	}
 	if c.PreemptP < 0 || c.PreemptP > 1 {
